@@ -119,6 +119,15 @@ CLAIMS = {
         design_ref="DESIGN.md section 5, C15",
         note=TRUST + "encoding/binary models are trusted. The dispatch of demuxed frames to per-channel hubs (a map lookup under a lock) is covered only by inspection, not by obligations.",
     ),
+    "C16": dict(
+        category="exploration",
+        text="BOUNDED stand-in, not a proof and not counted as one: no contract within reach decides this property (the parsers are net/netip, regexp, strconv, base64, fmt), so the round-trip clause itself is executed on the real marshal / parse functions "
+             "over stated finite domains: udpswarm (12 IPs x 5 ports, 26 texts), sshswarm (64 key fingerprints x 4 IPs x 3 ports, 14 texts), quicswarm and p2pkeswarm nested addresses (6 ids x 8 inner addresses, 10 texts each). "
+             "For every address: parse(marshal(a)) == a; for every text that parses: the parsed address marshals and parses back to itself.",
+        design_ref="DESIGN.md section 5, C16 and section 10",
+        note="Bounded: only the enumerated cases are covered. multiswarm, memswarm and vswarm addresses are not covered. Harnesses: /verif/bounded/c16, injected with go test -overlay (nothing is written into /repo).",
+        technique="bounded stand-in for a contract clause (enumerated domain executed on the real code); labelled bounded",
+    ),
     "C17": dict(
         category="proof",
         text="Deductive proof of the contract-expressible clauses: PeerID.UnmarshalText returns nil only if the base64 decoder reported no error and leaves the id unchanged on error; "
@@ -158,7 +167,6 @@ for _c in CLAIMS.values():
     _c.setdefault("technique", TECH)
 
 NOT_APPLICABLE = {
-    "C16": "The round trip goes through net/netip, regexp, strconv, base64 and fmt, none of which can be brought under contracts here, so no function-level contract can decide it; the planned bounded stand-in was not built, and an undecided property is not claimed (DESIGN.md section 5, C16 and section 10).",
     "C14": "Data-race freedom quantifies over the interleavings the Go memory model distinguishes; contracts on sequential function bodies (the technique studied here) cannot express or decide it without a permission logic, which this engine does not have (DESIGN.md section 5, C14).",
 }
 
